@@ -273,16 +273,9 @@ func (w *World) Step(i int, st M) (M, error) {
 			res = stepResult{ret: "skipped"}
 			break
 		}
-		if w.cfg.SerialIDs && gets(req, "k") == "Join" && geti(req, "sid") == 0 {
-			_, free := w.store.VerifIDs()
-			n := len(free)
-			if s := c.rh.CurrentSession(); s != nil && s.ParticipantCount() == 1 {
-				n++ // the requester is the last member: leaving releases one more id first
-			}
-			if n >= 2 {
-				res = stepResult{ret: "skipped"}
-				break
-			}
+		if w.cfg.SerialIDs && kind == "Req" && !parked(req) && w.ambiguousCreate(c, req) {
+			res = stepResult{ret: "skipped"}
+			break
 		}
 		if gets(req, "k") == "Join" && mhas(req, "like") {
 			// symbolic session reference (C03 differential): the session connection `like` is in, whatever its id
@@ -319,6 +312,10 @@ func (w *World) Step(i int, st M) (M, error) {
 		c := w.conn(cid)
 		if c.life == "closed" {
 			res = stepResult{ret: "closed"}
+			break
+		}
+		if w.cfg.SerialIDs && w.ambiguousCreate(c, nil) {
+			res = stepResult{ret: "skipped"}
 			break
 		}
 		res = w.process(c, rec)
@@ -362,6 +359,26 @@ func (w *World) Step(i int, st M) (M, error) {
 func parked(req M) bool {
 	k := gets(req, "k")
 	return k == "Pose" || k == "CompUpdate"
+}
+
+// ambiguousCreate (paired runs, option serial_ids): the request that would be PROCESSED now - the head of the
+// connection's queue, or `incoming` when the queue is empty - is a join that creates a session while two or more
+// released session ids could be handed out (New pops any of them, by Go map order): two runs of the same history could
+// legitimately differ in the id, so the step is skipped in both.
+func (w *World) ambiguousCreate(c *Conn, incoming M) bool {
+	next := incoming
+	if len(c.sc.q) > 0 {
+		next = c.sc.q[0].req
+	}
+	if next == nil || gets(next, "k") != "Join" || geti(next, "sid") != 0 {
+		return false
+	}
+	_, free := w.store.VerifIDs()
+	n := len(free)
+	if s := c.rh.CurrentSession(); s != nil && s.ParticipantCount() == 1 {
+		n++ // the requester is the last member: leaving releases one more id first
+	}
+	return n >= 2
 }
 
 func (w *World) process(c *Conn, rec M) stepResult {
